@@ -266,9 +266,15 @@ func (env *verifEnv) tokCorrupt(orig string, pos int, newByte byte, note string)
 		if len(pa) != 3 || len(pc) != 3 {
 			return false
 		}
-		// header and payload are covered by the signature as text
-		if pa[0] != pc[0] || pa[1] != pc[1] {
-			return false
+		// go-jose decodes the three segments and re-encodes header and payload canonically before
+		// verifying, so a change confined to the unused low bits of a segment's last base64 character
+		// yields exactly the signed bytes: the same token, not an alteration
+		for i := 0; i < 2; i++ {
+			x, e1 := b64d(pa[i])
+			y, e2 := b64d(pc[i])
+			if e1 != nil || e2 != nil || string(x) != string(y) {
+				return false
+			}
 		}
 		sa, err1 := b64d(pa[2])
 		sc, err2 := b64d(pc[2])
